@@ -617,7 +617,7 @@ impl Prop for C19 {
          serde_json; xml: a strict XML 1.1 well-formedness checker; bson: hex/base64 decode + BSON parse; debug: non-empty) and \
          whose values equal what the library returns in-process for the same server. (2) every id of the definitions table (97, \
          Eco over loopback HTTP) against its family's seed server: 2 of the 12 (mode, format) pairs per id, rotating, in the quick tier; \
-         all 12 in thorough. (3) invalid invocations (unknown game, \
+         all 12 in thorough. (3) invalid invocations (unknown game ids of 30+ shapes: empty, 1-3 letters, wrong case, suffixed, multi-byte characters at byte offsets 0..5, \
          unresolvable host, closed UDP port, refused TCP, each flag with missing / empty / 0 / -1 / non-numeric / out-of-range \
          values): non-zero exit other than 101, a message on stderr, no 'panicked at'. distinct_nontrivial = distinct (game, \
          slot, class, mode, format, verdict) tuples"
@@ -810,11 +810,25 @@ impl Prop for C19 {
                 let mut invocations: Vec<(String, Vec<String>)> = vec![
                     ("unknown game".into(), base("nosuchgame", "127.0.0.1", closed_udp)),
                     ("unresolvable host".into(), base("teamfortress2", "no-such-host.invalid", closed_udp)),
+                    ("unresolvable host (empty)".into(), base("teamfortress2", "", closed_udp)),
+                    ("unresolvable host (non-ASCII)".into(), base("teamfortress2", "tf²–nö.invalid", closed_udp)),
                     ("closed UDP port".into(), base("teamfortress2", "127.0.0.1", closed_udp)),
                     ("refused TCP".into(), base("minecraftjava", "127.0.0.1", refused_tcp)),
                     ("no subcommand".into(), vec![]),
                     ("missing game".into(), vec!["query".into(), "-i".into(), "127.0.0.1".into()]),
                 ];
+                // unknown game ids of every small shape: empty, shorter / longer than any prefix a message might quote, upper case
+                // of a known id, a known id with a suffix, and multi-byte characters straddling every small byte offset
+                let mut unknown_ids: Vec<String> = ["", "t", "tf", "tf2", "TEAMFORTRESS2", "teamfortress2 ", "teamfortress22", "a b", "%s%n", "\u{1}"].iter().map(|s| s.to_string()).collect();
+                for lead in 0 ..= 4usize {
+                    for ch in ["é", "²", "–", "😀"] {
+                        unknown_ids.push(format!("{}{ch}{ch}x", "q".repeat(lead)));
+                    }
+                }
+                unknown_ids.push("マイクラ".into());
+                for id in unknown_ids {
+                    invocations.push((format!("unknown game {id:?}"), base(&id, "127.0.0.1", closed_udp)));
+                }
                 for flag in ["--port", "--read-timeout", "--write-timeout", "--connect-timeout", "--retries", "--format", "--output-mode", "--protocol-version", "--gather-players", "--gather-rules", "--check-app-id", "--hostname"] {
                     for (vname, val) in [("missing", None), ("empty", Some("")), ("zero", Some("0")), ("negative", Some("-1")), ("non-numeric", Some("abc")), ("out of range", Some("99999999999999999999999"))] {
                         // values that are legitimate for the flag are not invalid invocations
